@@ -151,6 +151,10 @@ func c17(r *core.Run) {
 		c06NoEarlyFailure(r, "G6", ro)
 	}
 	c06PrefixBoundary(r, "G7")
+	r.Rule("G10", "registration accepts what the grammar accepts (shared with C06.R3): the function every handler registration passes through panics on a pattern Pattern.IsValid rejects before the trie is touched - validating in one public entry point only lets the others register patterns the validators reject", 1)
+	if ro := resolveMuxRolesFor(r, "G10"); ro != nil {
+		c06AddValidates(r, "G10", ro)
+	}
 	r.Rule("G9", "exact tokenisation: library code never splits with strings/bytes Fields or FieldsFunc (they drop empty tokens, so names with empty tokens are routed like other names and a separators-only name has no first token) and never strips a variable prefix with a cutset function (Trim, TrimLeft, TrimRight)", 1)
 	c17ExactTokens(r, "G9", []string{"", "store", "store/badgerstore", "store/mockstore", "resprot", "middleware", "middleware/resbadger"}, "library")
 	r.Rule("G8", "the pattern handed out at registration is the pattern routed (shared with C06.R11): the registration-time traversal that reconstructs a handler's pattern rebinds the mount index at mount points, as the matcher does; otherwise a handler below a nested mount is told a pattern with its placeholder on another token, and id -> resource id -> id through the transformers is no longer the identity", 2)
